@@ -76,6 +76,10 @@ def jobs(tier):
             add('committor_job', 'committors[n=4,%s,[0,1]->[2,3]]' % fmt, n=4, sources=[0, 1], sinks=[2, 3], container=fmt)
             add('mfpt_job', 'mfpt[n=2,%s,all-pairs]' % fmt, n=2, container=fmt)
     add('mfpt_job', 'mfpt[n=2,all-pairs]', n=2)
+    # history: the same array object analysed before with other contents, then overwritten in place (no state may be carried between calls)
+    add('mfpt_job', 'mfpt[n=2,all-pairs,populations=None,array re-used after an earlier analysis]', n=2, given_pops=False, reuse=True)
+    add('mfpt_job', 'mfpt[n=2,all-pairs,array re-used after an earlier analysis]', n=2, reuse=True)
+    add('mfpt_job', 'mfpt[n=3,sink=2,array re-used after an earlier analysis]', n=3, sinks=[2], reuse=True)
     # populations not supplied: mfpts derives them from the matrix
     add('mfpt_job', 'mfpt[n=2,all-pairs,populations=None]', n=2, given_pops=False)
     if not q:
